@@ -50,6 +50,9 @@ def main():
         rc0, o0, e0 = sh([PY, "demo.py"], cwd=wt, env=env)
         ran.append("clean tree: python demo.py -> exit %d" % rc0)
         rc, o, e = sh(["git", "apply", patch], cwd=wt)
+        if rc != 0:     # written against an earlier commit of /repo: merge it onto the current one
+            rc, o, e = sh(["git", "apply", "--3way", patch], cwd=wt)
+            ran.append("patch applied with --3way onto the current /repo HEAD")
         assert rc == 0, "patch does not apply: " + e
         rct, ot, et = sh([PY, "-m", "pytest", "-q", "-p", "no:cacheprovider", "--timeout=900"], cwd=wt, env=env)
         tail = (ot.strip().splitlines() or ["?"])[-1]
